@@ -334,10 +334,49 @@ var (
 	idT = []byte("target_only") // lives only in non-empty targets
 )
 
-var allIDs = [][]byte{idA, idB, idC, idT}
+// Valid but odd client ids (keystore.ValidateID: letters, digits, '-', '_', ' ', 5..256 bytes): the text of a key-kind
+// suffix of the v1 file names ("_storage", "_storage_sym", "_hmac") occurs INSIDE the id. Key files of such a client are
+// called e.g. "billing_storage_hmac_node_storage_sym"; whoever derives the owner from the file name must cut at the end.
+var (
+	idD = []byte("billing_storage_hmac_node") // "_storage" and "_hmac" in the middle
+	idE = []byte("x_storage_sym_y")           // "_storage_sym" (and with it "_storage") in the middle
+	idF = []byte("a_hmac_b")                  // "_hmac" in the middle
+	idG = []byte("billing")                   // plain; what idD's file names start with, cut at the first key-kind suffix
+)
+
+var oddIDs = [][]byte{idD, idE, idF}
+
+var allIDs = [][]byte{idA, idB, idC, idT, idD, idE, idF, idG}
+
+// idClass names the class of a client id for signatures: "plain" or "id-contains-key-kind-suffix".
+func idClass(id string) string {
+	for _, suf := range []string{"_storage", "_hmac"} {
+		if i := strings.Index(id, suf); i >= 0 && i+len(suf) < len(id) {
+			return "id-contains-key-kind-suffix"
+		}
+	}
+	return "plain"
+}
+
+// entryClient returns the client id an entry name belongs to ("" for poison / log entries): "priv/<id>", "ring/client/<id>/<kind>[#current]".
+func entryClient(n string) string {
+	if strings.HasPrefix(n, "ring/") {
+		f := strings.Split(strings.TrimSuffix(n, "#current"), "/")
+		if len(f) == 4 && f[1] == "client" {
+			return f[2]
+		}
+		return ""
+	}
+	if i := strings.Index(n, "/"); i >= 0 {
+		return n[i+1:]
+	}
+	return ""
+}
 
 // histories returns the fixed boundary histories plus n seeded ones.
-func histories(rng *gen.Rand, n int) []historySpec {
+// odd (its own stream, so that the seeded histories are what they were before odd ids existed) decides which seeded
+// histories get an extra client with an odd id.
+func histories(rng *gen.Rand, odd *gen.Rand, n int) []historySpec {
 	hs := []historySpec{
 		{name: "single-keys", clients: []clientSpec{{id: idA, pair: 1, sym: 1, hmac: 1}}, poisonPair: 1, poisonSym: 0, logKey: 1},
 		{name: "single-keys+poison-sym", clients: []clientSpec{{id: idA, pair: 1, sym: 1, hmac: 1}, {id: idB, pair: 1, sym: 1, hmac: 1}}, poisonPair: 1, poisonSym: 1, logKey: 1},
@@ -345,6 +384,11 @@ func histories(rng *gen.Rand, n int) []historySpec {
 		{name: "rotated-poison", clients: []clientSpec{{id: idA, pair: 1, sym: 1, hmac: 1}}, poisonPair: 2, poisonSym: 0, logKey: 1},
 		{name: "rotated+destroyed", clients: []clientSpec{{id: idA, pair: 2, sym: 3, hmac: 1, destroyRotSym: true}, {id: idB, pair: 2, sym: 2, hmac: 1, destroyCurSym: true}, {id: idC, pair: 2, sym: 1, hmac: 1, destroyCurPair: true}}, poisonPair: 1, poisonSym: 0, logKey: 1},
 	}
+	// odd client ids: without rotation (next to the plain client their file names start with), and with rotated keys
+	hs = append(hs,
+		historySpec{name: "odd-ids", clients: []clientSpec{{id: idD, pair: 1, sym: 1, hmac: 1}, {id: idE, pair: 1, sym: 1, hmac: 1}, {id: idG, pair: 1, sym: 1, hmac: 1}}, poisonPair: 1, poisonSym: 0, logKey: 1},
+		historySpec{name: "odd-ids-rotated", clients: []clientSpec{{id: idF, pair: 2, sym: 2, hmac: 2}, {id: idA, pair: 1, sym: 2, hmac: 1}}, poisonPair: 1, poisonSym: 0, logKey: 1},
+	)
 	for i := 0; i < n; i++ {
 		h := historySpec{name: fmt.Sprintf("seeded-%d", i)}
 		for _, id := range [][]byte{idA, idB, idC}[:1+rng.Intn(3)] {
@@ -359,6 +403,15 @@ func histories(rng *gen.Rand, n int) []historySpec {
 				c.destroyRotSym = true
 			}
 			h.clients = append(h.clients, c)
+		}
+		if odd.Intn(3) == 0 {
+			// one more client, with an odd id (placed first or last: the last client of a history is not selected by the id selections)
+			c := clientSpec{id: oddIDs[odd.Intn(len(oddIDs))], pair: 1 + odd.Intn(2), sym: 1 + odd.Intn(2), hmac: 1 + odd.Intn(2)}
+			if odd.Intn(2) == 0 {
+				h.clients = append([]clientSpec{c}, h.clients...)
+			} else {
+				h.clients = append(h.clients, c)
+			}
 		}
 		h.poisonPair = rng.Intn(3)
 		h.poisonSym = rng.Intn(2) * (1 + rng.Intn(2))
